@@ -329,7 +329,11 @@ SKIP_SHAPES = (
     ("^b", NOT_ANY(("ci", "b"))),                 # case-insensitive stop
     ("^ab", NOT_ANY(("ci", "ab"))),               # case-insensitive stop of two letters (mixed-case spellings)
     ("rule", NOT_ANY(R("n"))),                    # the stop is a rule (n = { "a" })
+    ("seq", NOT_ANY(("grp", ("seq", (S("a"), S("b")))))),   # a sequence of literals: implicit rules may match between its parts
+    ("rule!seq", NOT_ANY(R("e_non"))),            # ... inside a rule that re-enables implicit rules (e_non = !{ "a" ~ "b" })
+    ("rule@seq", NOT_ANY(R("e_at"))),             # ... inside an atomic rule (e_at = @{ "a" ~ "b" })
 )
+SKIP_HELPERS = (("e_non", "!", ("seq", (S("a"), S("b")))), ("e_at", "@", ("seq", (S("a"), S("b")))))
 
 
 def skip_specs(kmode: str = "zero", tier: str = "quick", trivs=None, mods=None, full: bool = False):
@@ -360,7 +364,7 @@ def skip_specs(kmode: str = "zero", tier: str = "quick", trivs=None, mods=None, 
         L = 4 if (tier == "thorough" or (kmode != "all" and tv == "none")) else 3
         specs = []
         for i in range(0, len(starts), 40):
-            rules = list(TRIVIA[tv] + HELPERS)
+            rules = list(TRIVIA[tv] + HELPERS + SKIP_HELPERS)
             names = []
             seen_extra = set()
             for j, (extra, (mod, body)) in enumerate(starts[i:i + 40]):
@@ -425,6 +429,51 @@ BUILTIN_RULE_TEXT = ("; plus every-built-in: each built-in rule (quick: all ASCI
                      "on one- and two-character inputs from 25 characters of many scripts and categories (incl. NUL, a lone surrogate, a non-BMP character, a combining mark)")
 
 
+def recursive_specs(kmode: str = "zero", tier: str = "quick", stack: bool = False, trivs=("none",)):
+    """Recursive grammars (nothing else in these families is recursive): a rule that refers back to itself inside a repetition, an optional
+    and a choice, with something that matters (a pair, a stack operation) placed BEFORE and AFTER the recursive part, called from a repetition,
+    an optional and directly.  Any per-rule analysis that is started from outside the cycle, or cached half way round it, shows here."""
+    a = R("a")
+    recs = {
+        "list": ("seq", (("star", ("grp", ("seq", (a, S(","))))), ("opt", a))),
+        "opt": ("opt", a),
+        "star": ("star", a),
+        "alt": ("grp", ("alt", (("seq", (a, S(","))), a, S("")))),
+    }
+    ops = (("pushlit", "x"), ("push", ("opt", S("x")))) if stack else (R("n"), ("opt", R("n")))
+    tops = {
+        "star": lambda: ("star", a), "one": lambda: a, "opt": lambda: ("opt", a), "two": lambda: ("seq", (a, ("opt", a))),
+        "abandon": lambda: ("alt", (("seq", (a, S("!"))), ("star", a))),
+    }
+    tail = (("popall",), R("EOI")) if stack else (("star", S("x")), R("EOI"))
+    out = []
+    for tv in trivs:
+        k = 0
+        for rname, rec in recs.items():
+            for op in ops:
+                for place in ("before", "after", "both"):
+                    body = ("seq", (S("("),) + ((op,) if place in ("before", "both") else ()) + (rec,) + ((op,) if place in ("after", "both") else ()) + (S(")"),))
+                    starts = [(f"t{k}_{tn}", "", ("seq", (mk(),) + tail)) for tn, mk in tops.items()]
+                    rules = TRIVIA[tv] + HELPERS + (("a", "", body),) + tuple(starts)
+                    sigma = "()x," + ("a" if not stack else "") + TRIVIA_SIGMA[tv]
+                    L = (6 if tier == "quick" else 7) - (1 if len(sigma) > 5 else 0)
+                    out.append(Spec(rules, [x[0] for x in starts], inputs_pruned(sigma, L), kmode, f"recursive({rname},{place},{tv})"))
+                    k += 1
+    return out
+
+
+def inputs_pruned(sigma: str, L: int):
+    """Strings over sigma up to length L that start with '(' or are very short (the recursive templates reject everything else at once)."""
+    key = ("pruned", sigma, L)
+    if key not in _inputs_cache:
+        _inputs_cache[key] = tuple(t for t in gast.strings_upto(sigma, L) if len(t) <= 2 or t[0] == "(")
+    return _inputs_cache[key]
+
+
+RECURSIVE_RULE_TEXT = ("; plus recursive grammars: a = { \"(\" ~ [op] ~ REC ~ [op] ~ \")\" } with REC in {(a ~ \",\")* ~ a?, a?, a*, (a ~ \",\" | a | \"\")} and op (a rule reference / a stack operation) before, after or on both sides of the "
+                       "recursive part, called as a*, a, a?, a ~ a? and in an abandoned alternative, on every input over {( ) x ,} (+ a / trivia) up to length 6 that starts with \"(\"")
+
+
 def metachar_specs(kmode: str = "zero", tier: str = "quick"):
     """Literals made of characters that mean something in a regular expression (and one non-BMP, one combining sequence), in the places the
     optimizer turns into regular expressions or substring searches: choices of literals, a literal next to a range, case-insensitive
@@ -451,7 +500,7 @@ META_RULE_TEXT = ("; plus metachar-literals: choices of two literals, a literal 
 U_CORE_SMALL = (("grp",), ("opt",), ("star",), ("plus",), ("and",), ("not",))
 EXPLICIT_RULE_TEXT = "; plus explicit-loud-trivia: every expression with <= 3 nodes over {\"a\", WHITESPACE, COMMENT} with ( ) ? * + & ! ~ | as the body of a normal / @ / $ / ! rule, where WHITESPACE (and COMMENT) are non-silent implicit rules"
 
-SKIP_RULE_TEXT = ("; plus skip shapes: (!stop ~ ANY)* with stop in {\"b\", (\"b\"|\"ab\"), \"bb\", ^\"b\", ^\"ab\", n} in eleven templates (alone, before a terminator, repeated, twice in one sequence, "
+SKIP_RULE_TEXT = ("; plus skip shapes: (!stop ~ ANY)* with stop in {\"b\", (\"b\"|\"ab\"), \"bb\", ^\"b\", ^\"ab\", n, (\"a\" ~ \"b\"), a ! rule and an @ rule holding \"a\" ~ \"b\"} in eleven templates (alone, before a terminator, repeated, twice in one sequence, "
                   "re-evaluated after backtracking, through a rule called twice, under & and ?), under the rule modifiers normal / @ / ! (C04 and thorough: all five), with trivia none / WHITESPACE (C04 and thorough: also a one-character COMMENT), "
                   "inputs over {a,b,B}+trivia up to length 4 (3 with trivia or with every start position)")
 
